@@ -179,8 +179,14 @@ def plugin():
     return _enc["mod"].suit_encryptor_factory()
 
 
-def plugin_encrypt(plaintext, key_name, kid, keysdir, hash_alg):
-    """plug-in interface -> (encrypted_payload, tag, info, digest, length)"""
+def plugin_encrypt(plaintext, key_name, kid, keysdir, hash_alg, reuse=False):
+    """plug-in interface -> (encrypted_payload, tag, info, digest, length); reuse=True keeps ONE encryptor object"""
     from suit_generator.suit_encrypt_script_base import SuitDigestAlgorithms, SuitKWAlgorithms
-    return plugin().encrypt_and_generate(plaintext, key_name, kid, keysdir, SuitDigestAlgorithms(hash_alg),
-                                         SuitKWAlgorithms.DIRECT, KMS_SCRIPT)
+    if reuse:
+        if "obj" not in _enc:
+            _enc["obj"] = plugin()
+        enc = _enc["obj"]
+    else:
+        enc = plugin()
+    return enc.encrypt_and_generate(plaintext, key_name, kid, keysdir, SuitDigestAlgorithms(hash_alg),
+                                    SuitKWAlgorithms.DIRECT, KMS_SCRIPT)
